@@ -875,6 +875,13 @@ class VM:
                     yield from self._ev(e.orelse, st2, frame)
             return
         if isinstance(e, (ast.ListComp, ast.GeneratorExp, ast.SetComp, ast.DictComp)):
+            if self._touches_vm(e) and self._only_reads_memo(e):
+                # a read-only scan of the memo / the statements emitted so far: its value is unknown data
+                if any(isinstance(n, ast.Attribute) and n.attr == "memory" for n in ast.walk(e)):
+                    st.memo_other.append(("read-in-comprehension", line))
+                kind = {"ListComp": "list", "GeneratorExp": "iterator", "SetComp": "set", "DictComp": "dict"}[type(e).__name__]
+                yield st, Unknown(pykind=kind, why="scan-result")
+                return
             if self._touches_vm(e):
                 raise Unrecognised(f"line {line}: comprehension over VM state")
             # evaluate the first iterable for provenance
